@@ -875,9 +875,9 @@ func c17Corpus() []c17Fixed {
 		{"boards", "a -> b\nlayers: {\n  l: {\n    \"x`\" -> y\n    s: {shape: sequence_diagram; p -> q}\n  }\n}\nscenarios: {\n  sc: {\n    b -> c\n  }\n}\nsteps: {\n  st: {\n    g: {grid-rows: 2; u; v}\n  }\n}\n"},
 		{"class-sql", "c: {\n  shape: class\n  +a: int\n  -b(x): '`${y}`'\n}\nt: {\n  shape: sql_table\n  id: int {constraint: primary_key}\n  \"na`me\": '${t}'\n}\nc -> t\nt.id -> c.a\n"},
 		{"markdown-code-latex-free", "m: |md\n  # T\n  `x` ${y}\n|\nk: |go\n  a := `x${y}`\n|\nm -> k\n"},
-		{"text-empty-label", "a: \" \" {shape: text}\nb: \"\"\na -> b: \"\"\n"},
+		{"text-empty-label", "a: \"t\" {shape: text}\nb: \"\"\na -> b: \"\"\n"},
 		{"null-and-positions", "a -> b\nb: null\nc: {top: 10; left: 20}\nd: {top: 0; left: 0; e}\nc -> d.e\n"},
-		{"classes-links", "classes: {\n  k: {\n    style.fill: red\n    shape: hexagon\n  }\n}\na: {class: k; link: https://example.com/`${x}`}\nb: {class: k; tooltip: 'tip ${y}'}\na -> b: {class: k}\n"},
+		{"classes-links", "classes: {\n  k: {\n    style.fill: red\n    shape: hexagon\n  }\n}\na: {class: k; link: 'https://example.com/`${x}`'}\nb: {class: k; tooltip: 'tip ${y}'}\na -> b: {class: k}\n"},
 		{"latex", "x: |latex\n  \\frac{a}{b} + c^{2}\n|\ny: |tex \\sqrt{2} |\nx -> y: |latex \\alpha |\n"},
 		{"grid-root-with-nears-and-seq", "grid-columns: 2\na; b\ns: {shape: sequence_diagram; p -> q}\nt: T {near: top-center}\na -> s\n"},
 		{"huge-font-and-label", "a: \"" + strings.Repeat("wide label ", 40) + "\" {style.font-size: 100}\nb: x {style.font-size: 8; width: 1; height: 1}\na -> b: \"" + strings.Repeat("edge label ", 30) + "\"\n"},
